@@ -148,7 +148,7 @@ def gen_unpivot(rng):
                     keys[kk] = 'nogroup'
         else:
             pat = rng.pick(stems + ['absent'])
-            keys = {'year': rng.pick(['lit', r'\1', 3])}
+            keys = {'year': rng.pick(['lit', r'\1', 3, 'C:\\new\\table', r'\g<0>'])}
             if rng.chance(0.3):
                 keys['kind'] = 'fixed'
         specs.append({'name': pat, 'keys': [[k, enc(v)] for k, v in keys.items()]})
